@@ -1662,14 +1662,17 @@ pub fn program(seed: u64, i: u64, size: usize) -> Value {
             g.call_with_setup(f, &mut body);
         }
     }
+    let mut ends_without_line_break = false;
     if g.rng.chance(30) {
         // the END of the output: the last thing printed has no line break after it
         g.calls_left = 0;
         let t = g.scalar_type();
         let e = g.expr(t, 1);
         body.push(json!({"k": "P", "e": e, "nonl": true}));
+        ends_without_line_break = true;
     }
-    g.calls_left = 1;
+    // (no call in the result expression then: a callee that prints would continue the unfinished line)
+    g.calls_left = if ends_without_line_break { 0 } else { 1 };
     let res = g.expr("u8", 2);
     let mut all = vec![json!({"name": "main", "params": [], "ret": {"k": "prim", "t": "u8"}, "body": body, "res": res})];
     all.extend(fns);
